@@ -396,19 +396,21 @@ func (x *Exec) builderCall(st *State, name string, args []Val, site string) Val 
 	errT := types.Universe.Lookup("error").Type()
 	switch name {
 	case "WriteByte":
-		x.storeAddr(st, a, fmt.Sprintf("(o_b %s %s)", cur.S, args[1].S), site)
+		x.builderWrite(st, a, cur, "b", args[1].S, site)
 		return Val{S: cx.zeroOf(errT), T: errT}
 	case "WriteRune":
-		x.storeAddr(st, a, fmt.Sprintf("(o_b %s %s)", cur.S, args[1].S), site)
+		x.builderWrite(st, a, cur, "b", args[1].S, site)
 		return Val{Tuple: []Val{{S: cx.num(1), T: types.Typ[types.Int]}, {S: cx.zeroOf(errT), T: errT}}}
 	case "WriteString":
-		x.storeAddr(st, a, fmt.Sprintf("(o_s %s %s)", cur.S, args[1].S), site)
+		x.builderWrite(st, a, cur, "s", args[1].S, site)
 		return Val{Tuple: []Val{{S: fmt.Sprintf("(s_len %s)", args[1].S), T: types.Typ[types.Int]}, {S: cx.zeroOf(errT), T: errT}}}
 	case "String":
 		r := x.declConst(st, "built", "Str")
 		o := x.name(st, "out", cur)
 		x.assume(st, fmt.Sprintf("(= (s_len %s) (o_len %s))", r, o.S))
 		st.script = append(st.script, entry{kind: 'S', aux: [2]string{r, o.S}})
+		cx.declUF("s_hist", "(declare-fun s_hist (Str) Out)")
+		x.assume(st, fmt.Sprintf("(= (s_hist %s) %s)", r, o.S))
 		return Val{S: r, T: types.Typ[types.String]}
 	case "Len":
 		return x.name(st, "v", Val{S: fmt.Sprintf("(o_len %s)", cur.S), T: types.Typ[types.Int]})
@@ -417,6 +419,14 @@ func (x *Exec) builderCall(st *State, name string, args []Val, site string) Val 
 		return Val{}
 	}
 	panic(unsupported("strings.Builder." + name))
+}
+
+func (x *Exec) builderWrite(st *State, a *Addr, cur Val, kind, operand, site string) {
+	old := x.name(st, "out", cur)
+	nv := x.declConst(st, "out", "Out")
+	x.assume(st, fmt.Sprintf("(= %s (o_%s %s %s))", nv, kind, old.S, operand))
+	st.script = append(st.script, entry{kind: 'W', aux: [2]string{nv, old.S}, name: kind, text: operand})
+	x.storeAddr(st, a, nv, site)
 }
 
 // trusted standard library table ----------------------------------------------------------------
